@@ -527,6 +527,81 @@ func c03CFFRuns(r *run.Run) {
 		})
 }
 
+// c03StandardNames: TrueType fonts with exactly 258 glyphs named with the 258 standard Macintosh names
+// (the compact version 1 post table is only right when they are in the standard order).
+func c03StandardNames(r *run.Run) {
+	std := postStandardNames()
+	r.Explore(explore.Config{Name: "C03.post-standard-names"},
+		"glyf fonts with 258 glyphs named with the 258 standard Macintosh glyph names: in the standard order, with two names exchanged (4 pairs), with capital and small letters exchanged, with one standard name used twice: golang.org/x/image reports the font's glyph names, and so does the library after reading the file back",
+		func(c *explore.Ctx) {
+			names := append([]string{}, std...)
+			var desc string
+			switch k := c.Choose(7, "variant"); k {
+			case 0:
+				desc = "standard order"
+			case 1, 2, 3, 4:
+				p := [][2]int{{1, 2}, {10, 20}, {36, 68}, {256, 257}}[k-1]
+				names[p[0]], names[p[1]] = names[p[1]], names[p[0]]
+				desc = fmt.Sprintf("%q and %q exchanged", names[p[0]], names[p[1]])
+			case 5:
+				for i := 0; i < 26; i++ {
+					names[36+i], names[68+i] = names[68+i], names[36+i]
+				}
+				desc = "capital and small letters exchanged"
+			case 6:
+				names[100] = names[50]
+				desc = fmt.Sprintf("%q used twice", names[50])
+			}
+			f, _ := FontFromChoices(gen.FontOpts{NoMeta: true, NoLayout: true}, gen.KindGlyf, 2, 0, 0, 1)
+			base := f.Outlines.(*glyf.Outlines)
+			ol := *base
+			ol.Glyphs, ol.Widths = nil, nil
+			for i := 0; i < 258; i++ {
+				ol.Glyphs = append(ol.Glyphs, base.Glyphs[i%len(base.Glyphs)])
+				ol.Widths = append(ol.Widths, funit.Int16(400+i))
+			}
+			ol.Names = names
+			f.Outlines = &ol
+			c.Sample(func() any { return desc })
+			c.Outcome(desc)
+			buf := &bytes.Buffer{}
+			if _, err := f.Write(buf); err != nil {
+				c.Fail("C03.write-err", "Font.Write / standard names", "Write failed: %v (%s)", err, desc)
+				return
+			}
+			out := buf.Bytes()
+			if _, probs := refsfnt.Walk(out); len(probs) > 0 {
+				c.Fail("C03.wellformed", "Font.Write / standard names", "%s (%s)", probs[0], desc)
+				return
+			}
+			xf, err := xsfnt.Parse(out)
+			if err != nil {
+				c.Fail("C03.ximage-parse", "xsfnt.Parse", "independent parser rejects the written file: %v (%s)", err, desc)
+				return
+			}
+			c.Nontrivial()
+			var xb xsfnt.Buffer
+			for gid, want := range names {
+				got, err := xf.GlyphName(&xb, xsfnt.GlyphIndex(gid))
+				if err != nil || got != want {
+					c.Fail("C03.ximage", "GlyphName / standard names", "independent parser reports name %q (err=%v) for glyph %d, the font has %q (%s)", got, err, gid, want, desc)
+					return
+				}
+			}
+			back, err := sfnt.Read(bytes.NewReader(out))
+			if err != nil {
+				c.Fail("C03.readback", "standard names", "the library rejects the written file: %v (%s)", err, desc)
+				return
+			}
+			for gid, want := range names {
+				if got := back.GlyphName(glyph.ID(gid)); got != want {
+					c.Fail("C03.readback", "standard names", "glyph %d is called %q after reading the file back, the font has %q (%s)", gid, got, want, desc)
+					return
+				}
+			}
+		})
+}
+
 // ---- whole glyf fonts whose glyf table sits at the short/long loca thresholds ----
 
 func c03FillerGlyph(fill int) *glyf.Glyph {
@@ -782,6 +857,7 @@ func init() {
 		c03Fonts(r)
 		c03Scaled(r)
 		c03CFFRuns(r)
+		c03StandardNames(r)
 		c03Inner(r)
 		// one P: the goroutines of the interleaving exploration share per-P caches (sync.Pool), as on a loaded machine
 		old := runtime.GOMAXPROCS(1)
